@@ -11,7 +11,7 @@ EXPLANATION = ('The convergence statement of C06 is statistical and is NOT decid
                'drawn value reaches exactly one role sink (no value drawn once is used for two decisions); each draw consumes the generator IN PLACE (never a copy) and the '
                'generator state at the end of the transition descends from that draw (C06.advance). Second decided clause (also only necessary): the transition functions are '
                'the kernels whose normal forms C01-C05 specify (MH ratio with the Hastings correction in the right direction, sequential Gibbs sweep, leapfrog/Hamiltonian, NUTS '
-               'tree + adaptation) and the collection loops discard exactly the warm-up rows (C09 loop obligations) -- the obligations of those specs are re-decided here under C06 keys.')
+               'tree + adaptation) and the collection loops discard exactly the warm-up rows (C09 loop obligations) -- the obligations of those specs are re-decided here under C06 keys, and so are those of C08 ("over independent chains": no two chains, and no two generators of one chain, share a stream).')
 TECHNIQUE = 'draw-site table: distribution kind from resolved callees/values, single-use (one role sink) by value-flow containment, generator-advance by provenance chain; kernel normal forms shared with C01-C05/C09'
 LEVEL_NOTE = ('Decides only the draw-kind / single-use / generator-advance clause and the kernel-shape clause shared with C01-C05/C09. Convergence of long-run averages and calibration of Monte-Carlo error are outside '
               'this check; trusted: rand/rand_distr contracts (StandardUniform on [0,1), StandardNormal, Exp1), semantic table.')
